@@ -44,13 +44,17 @@ type inputObj struct{ name string }
 
 func (i *inputObj) ObjString() string { return i.name }
 
-const maxCalls = 7
+var maxCalls = 7
 
 // combinators whose documented contract is "consumes nothing"
 var lookAhead = map[string]bool{"Assert": true, "Not": true}
 
 func Run(p *load.Program, tier string) *oblig.Set {
 	s := oblig.NewSet()
+	maxCalls = 7
+	if tier == "thorough" {
+		maxCalls = 10
+	}
 	sp := p.SPkg("combinator")
 	if sp == nil {
 		s.Unk("ANCHOR", "package combinator", "-", "not found")
